@@ -57,6 +57,19 @@ func genKvs(r *hk.Rand, keys []string, vals []string, max int, allowEmpty bool) 
 	return out
 }
 
+// withHeader sets one header value in a key-sorted list.
+func withHeader(l []kvs, k, v string) []kvs {
+	var out []kvs
+	for _, e := range l {
+		if e.K != k {
+			out = append(out, e)
+		}
+	}
+	out = append(out, kvs{K: k, Vs: []string{v}})
+	sort.Slice(out, func(i, j int) bool { return out[i].K < out[j].K })
+	return out
+}
+
 func genCookies(r *hk.Rand, max int) [][2]string {
 	n := r.Intn(max + 1)
 	var out [][2]string
@@ -232,6 +245,15 @@ func genProgram(r *hk.Rand) *program {
 	}
 	if sh.BodyKind != "none" && sh.BodyKind != "multipart" {
 		sh.Body = hk.Pick(r, bodies)
+	}
+	if sh.BodyKind == "marshal" && r.Chance(60) {
+		// the content type decides between the XML and the JSON rendering - on every attempt
+		ct := hk.Pick(r, []string{"application/xml", "text/xml; charset=utf-8", "application/json", "application/xml"})
+		if r.Bool() {
+			sh.RHeaders = withHeader(sh.RHeaders, "Content-Type", ct)
+		} else {
+			sh.CHeaders = withHeader(sh.CHeaders, "Content-Type", ct)
+		}
 	}
 	if sh.BodyKind != "multipart" && r.Chance(15) {
 		for i, n := 0, r.Range(1, 3); i < n; i++ {
